@@ -172,6 +172,7 @@ type c20Result struct {
 	Violations []core.Violation `json:"violations"`
 	Total      int              `json:"total"` // number of mutants of this seed (for planning)
 	Sample     interface{}      `json:"sample"`
+	HungAt     int              `json:"hung_at"` // splice mode: index of the input whose decode never returned (-1: none); the task stopped there
 }
 
 func c20Seeds(decoder string) [][]byte {
@@ -228,7 +229,9 @@ func c20Decoders() map[string]c20Decoder {
 func c20Try(dec c20Decoder, in []byte) (err error, pv interface{}, stk string, alloc uint64) {
 	var m0, m1 runtime.MemStats
 	runtime.ReadMemStats(&m0)
-	func() {
+	done := make(chan struct{})
+	go func() {
+		defer close(done)
 		defer func() {
 			if r := recover(); r != nil {
 				pv = r
@@ -237,6 +240,16 @@ func c20Try(dec c20Decoder, in []byte) (err error, pv interface{}, stk string, a
 		}()
 		err = dec.Decode(in)
 	}()
+	select {
+	case <-done:
+	case <-time.After(5 * time.Second):
+		// "terminates returning either a value or an error": a decode of a few hundred bytes that is still
+		// running after 5 s never returns. Its goroutine keeps spinning, so this worker is not reused.
+		core.WorkerPoisoned = true
+		buf := make([]byte, 1<<16)
+		n := runtime.Stack(buf, true)
+		return nil, "decoder does not return (still running after 5 s)", hangStack(string(buf[:n])), 0
+	}
 	runtime.ReadMemStats(&m1)
 	alloc = m1.TotalAlloc - m0.TotalAlloc
 	return
@@ -321,11 +334,17 @@ func c20Exec(t c20Task) c20Result {
 	var res c20Result
 	dec := c20Decoders()[t.Decoder]
 	seenViol := map[string]bool{}
+	hung := false
+	res.HungAt = -1
 	report := func(in []byte, desc string, typeName string) {
 		err, pv, stk, alloc := c20Try(dec, in)
 		res.Evals++
 		var v *core.Violation
 		switch {
+		case pv != nil && strings.HasPrefix(fmt.Sprint(pv), "decoder does not return"):
+			hung = true
+			v = &core.Violation{Property: "C20", Clause: "decoder-terminates", Class: fmt.Sprintf("decoding does not terminate in %s", depSite(typeName, panicFuncAny(stk))),
+				Detail: fmt.Sprintf("%s, %s: %v", typeName, desc, pv)}
 		case pv != nil:
 			msg := fmt.Sprint(pv)
 			if len(msg) > 60 {
@@ -424,6 +443,10 @@ func c20Exec(t c20Task) c20Result {
 			fmt.Fprintf(os.Stderr, "cur=%d\n", i) // lets the master attribute a killed worker to this input
 			in, desc := c20Mutant(seed, i, splices)
 			report(in, desc, name)
+			if hung {
+				res.HungAt = i // the rest of the range is run by a fresh worker
+				break
+			}
 		}
 		res.Sample = map[string]interface{}{"decoder": t.Decoder, "type": name, "seed_bytes": len(seed), "mutants": res.Total}
 	}
@@ -566,7 +589,13 @@ func runC20() int {
 				return
 			}
 			var res c20Result
+			res.HungAt = -1
 			json.Unmarshal(r.Res, &res)
+			if res.HungAt >= 0 && ts[i].Mode == "splice" && res.HungAt+1 < ts[i].To {
+				rest := ts[i]
+				rest.From = res.HungAt + 1
+				died = append(died, rest)
+			}
 			evals += res.Evals
 			rejected += res.Errors
 			accepted += res.Accepted
@@ -603,4 +632,34 @@ func depSite(typeName, fn string) string {
 		return typeName + " / " + fn
 	}
 	return "dependency " + fn
+}
+
+// hangStack picks, from a dump of all goroutines, the one that is inside a decoder (not the watchdog).
+func hangStack(all string) string {
+	for _, g := range strings.Split(all, "\n\n") {
+		if strings.Contains(g, "Deserialize") || strings.Contains(g, ".Load(") || strings.Contains(g, "BtcDecode") || strings.Contains(g, "readPeer") {
+			if !strings.Contains(g, "runtime.Stack") {
+				return g
+			}
+		}
+	}
+	return all
+}
+
+// panicFuncAny names the innermost non-runtime function of a goroutine dump.
+func panicFuncAny(stk string) string {
+	for _, l := range strings.Split(stk, "\n") {
+		l = strings.TrimSpace(l)
+		if l == "" || strings.HasPrefix(l, "goroutine ") || strings.HasPrefix(l, "/") || strings.HasPrefix(l, "runtime.") || strings.Contains(l, "/verif/") || strings.HasPrefix(l, "bytes.") || strings.HasPrefix(l, "io.") {
+			continue
+		}
+		if k := strings.LastIndex(l, "("); k > 0 {
+			l = l[:k]
+		}
+		if k := strings.LastIndex(l, "/"); k > 0 {
+			l = l[k+1:]
+		}
+		return l
+	}
+	return "unknown"
 }
